@@ -113,7 +113,12 @@ class Report:
                 printed.add(line)
         if violations:
             os.makedirs(REPLAY, exist_ok=True)
+        shown = 0
         for f in violations:
+            shown += 1
+            if shown > 25:
+                print('  ... %d further violations (replay files are written only for the first 25)' % (len(violations) - 25))
+                break
             h = hashlib.sha1(f['key'].encode()).hexdigest()[:12]
             path = os.path.join(REPLAY, '%s-%s.json' % (self.prop, h))
             with open(path, 'w') as fh:
